@@ -55,6 +55,15 @@ Proof. exact real_fragmentation. Qed.
 Print Assumptions C01_fragmentation_partial.
 
 (* the only permitted difference: the erroring call hands out nothing *)
+(* the form in which the other properties use it: whatever ONE call on the whole stream delivers while ending idle, every
+   fragmentation delivers - on the reference machine always, on the machine as implemented on every quiet run *)
+Theorem C01_whole_call_any_fragmentation : forall (C : callees) (k : kind) (wire : bytes) (ms : list msg) (frags : list bytes),
+  parse reference C k init wire = (init, ms, None) -> concat_bytes frags = wire ->
+  run_keep reference C k init frags = (init, ms, None) /\
+  (quiet_run C k init frags = true -> run_keep real C k init frags = (init, ms, None)).
+Proof. exact whole_call_any_fragmentation. Qed.
+Print Assumptions C01_whole_call_any_fragmentation.
+
 Theorem C01_handed_out :
   forall (C : callees) (k : kind) (cfg : config) (frags : list bytes) (s : pstate),
   let '(s1, handed, e1) := ParserFraming.feed cfg C k s frags in
